@@ -124,7 +124,7 @@ type c17Resp struct {
 }
 
 func c17Gzip(c *ctx) {
-	n := c.scale(c.pick(5000, 400000))
+	n := c.scale(c.pick(5000, 100000))
 	c.R.Rule = "generated inner handlers (status, explicit/implicit WriteHeader, content type matching/not matching/absent, pre-set Content-Encoding and Content-Length, body 0B-4MiB compressible or random, written in 1-50 chunks) x request Accept-Encoding/Accept/method, served by two real net/http servers on loopback: wrapped by NewGzipHandler and unwrapped (reference); 64 concurrent clients with transparent decompression disabled, next to 4 clients that reset their connection in the middle of a 2-4 MiB compressed response (the wrapper's write fails). gzip-labelled => allowed to compress and gunzips to the reference body; otherwise identical to the reference. non-trivial = response the wrapper compressed, or one it had to leave alone although the client accepts gzip; distinct by case"
 	re := regexp.MustCompile(`^(text/.*|application/(javascript|json|xml))(;.*)?$`)
 	var cases sync.Map
